@@ -171,8 +171,28 @@ fn iovec_op(c: &mut Cursor) -> Op {
     }
 }
 
+/// Targets (with run counts for a thorough campaign) that attack a property.
+pub fn targets_for(property: &str) -> Vec<(&'static str, u64, usize)> {
+    // (target, runs per job, max input length)
+    let all: [(&str, u64, usize); 5] = [
+        ("hcobs_decode", 150_000, 4096),
+        ("hcobs_roundtrip", 4_000, 4096),
+        ("iovec_sm", 6_000, 1024),
+        ("tlv_view", 400_000, 512),
+        ("stream_reader", 12_000, 4096),
+    ];
+    all.iter().filter(|(t, _, _)| properties_of(t).contains(&property)).copied().collect()
+}
+
 /// Runs one fuzz input; returns the property whose oracle failed (if any) and the result.
+/// With `VERIF_FUZZ_PROPERTY` set, only that property's oracle is evaluated.
 pub fn run(target: &str, data: &[u8]) -> (&'static str, CaseResult) {
+    let only = std::env::var("VERIF_FUZZ_PROPERTY").ok();
+    run_filtered(target, data, only.as_deref())
+}
+
+pub fn run_filtered(target: &str, data: &[u8], only: Option<&str>) -> (&'static str, CaseResult) {
+    let want = |p: &str| only.map(|o| o == p).unwrap_or(true);
     let mut c = Cursor { data, pos: 0 };
     match target {
         "hcobs_decode" => {
@@ -206,12 +226,20 @@ pub fn run(target: &str, data: &[u8]) -> (&'static str, CaseResult) {
                 enc,
                 dec,
             };
-            first_err(vec![
-                ("C01", c01::check_case(&case)),
-                ("C02", c02::check_case(&case)),
-                ("C07", c07::check_encoder(&case)),
-                ("C09", c09::check_case(&case)),
-            ])
+            let mut results = vec![];
+            if want("C01") {
+                results.push(("C01", c01::check_case(&case)));
+            }
+            if want("C02") {
+                results.push(("C02", c02::check_case(&case)));
+            }
+            if want("C07") {
+                results.push(("C07", c07::check_encoder(&case)));
+            }
+            if want("C09") {
+                results.push(("C09", c09::check_case(&case)));
+            }
+            first_err(results)
         }
         "iovec_sm" => {
             let n_drop = (c.u8() % 6) as usize;
@@ -221,16 +249,22 @@ pub fn run(target: &str, data: &[u8]) -> (&'static str, CaseResult) {
                 ops.push(iovec_op(&mut c));
             }
             let h = History { ops, drop_order };
-            let r = iovec_sm::run_history(
-                &h,
-                Profile {
-                    check_pipe: true,
-                    check_mem: true,
-                    check_leak: true,
-                },
-            );
+            let profile = match only {
+                Some("C03") | Some("C04") => Profile { check_pipe: true, check_mem: false, check_leak: false },
+                Some("C10") => Profile { check_pipe: false, check_mem: false, check_leak: true },
+                Some("C05") | Some("C20") => Profile { check_pipe: true, check_mem: true, check_leak: false },
+                _ => Profile { check_pipe: true, check_mem: true, check_leak: true },
+            };
+            let r = iovec_sm::run_history(&h, profile);
             // Attribute to the most specific property by signature.
             let prop = match &r {
+                _ if only.is_some() => match only {
+                    Some("C03") => "C03",
+                    Some("C04") => "C04",
+                    Some("C05") => "C05",
+                    Some("C10") => "C10",
+                    _ => "C20",
+                },
                 Err(f) if f.sig.starts_with("memory") => "C05",
                 Err(f) if f.sig.starts_with("leak") => "C10",
                 Err(f) if f.sig.starts_with("pending") || f.sig.starts_with("iovs:arm") || f.sig.starts_with("flatten") || f.sig.starts_with("stable_consumer") => "C04",
@@ -268,15 +302,38 @@ pub fn run(target: &str, data: &[u8]) -> (&'static str, CaseResult) {
                 block,
                 arena_prep,
             };
-            first_err(vec![
-                (
+            let mut results = vec![];
+            if want("C08") {
+                results.push((
                     "C08",
                     c08::check_case(&c08::Case {
                         stream: stream.clone(),
                         delivery: delivery.clone(),
                     }),
-                ),
-                (
+                ));
+            }
+            if want("C05") {
+                results.push((
+                    "C05",
+                    crate::props::c05::check_chunker(&crate::props::c05::StreamCase {
+                        stream: stream.clone(),
+                        delivery: delivery.clone(),
+                        drop_order: vec![1, 0, 2],
+                        keep_every: 1,
+                    }),
+                ));
+                results.push((
+                    "C05",
+                    crate::props::c05::check_reader(&crate::props::c05::StreamCase {
+                        stream: stream.clone(),
+                        delivery: delivery.clone(),
+                        drop_order: vec![1, 0, 2],
+                        keep_every: 1,
+                    }),
+                ));
+            }
+            if want("C06") {
+                results.push((
                     "C06",
                     c06::check_case(&c06::Case {
                         stream,
@@ -284,8 +341,9 @@ pub fn run(target: &str, data: &[u8]) -> (&'static str, CaseResult) {
                         max_size,
                         limit,
                     }),
-                ),
-            ])
+                ));
+            }
+            first_err(results)
         }
         _ => ("", Err(Fail::new("fuzz:unknown-target", target.to_string()))),
     }
